@@ -389,21 +389,32 @@ def callback_worlds(p, f) -> dict:  # noqa: ANN001
     world -> (canonical value with the future's payload written VALUE, return node)."""
     from kfv import symexec
     from kfv.terms import Facts
-    inner = [h for h in p.funcs.values() if h.parent is f and h.kind == 'nested']
-    if len(inner) != 1:
+    inner = [h for h in p.funcs.values() if h.parent is f and h.kind == 'nested' and not isinstance(h.node, ast.Lambda)]
+    # the callbacks in the order they are chained with .then() on the way to the returned future
+    thens = [n for n in p.nodes(f) if isinstance(n, ast.Call) and isinstance(n.func, ast.Attribute) and n.func.attr == 'then' and len(n.args) == 1
+             and isinstance(n.args[0], ast.Name) and any(h.name == n.args[0].id for h in inner)]
+    thens.sort(key=lambda n: (getattr(n, '_kfv_line', n.lineno), n.col_offset))
+    chain = [next(h for h in inner if h.name == n.args[0].id) for n in thens]
+    if not chain or len(chain) != len(inner):
         raise AnalysisIncomplete(f'{f.short}: expected one nested callback')
-    h = inner[0]
-    prm = h.params[0] if h.params else 'future_'
     out = {}
     for avg in (True, False):
         for sym in (True, False):
-            cb = symexec.SymCB(lambda c: None, None, None, None, Facts({}, None, {'average': avg, 'symmetric': sym}))
-            _fin, exits = symexec.run(h, cb, {})
-            rets = [(s_, r) for s_, r in exits if isinstance(r, ast.Return) and r.value is not None]
-            if len(rets) != 1:
-                raise AnalysisIncomplete(f'{h.short}: {len(rets)} return paths for average={avg}, symmetric={sym}')
-            got = cb.value(rets[0][0], rets[0][1].value).canon()
-            out[(avg, sym)] = (got.replace(f'{prm}.value()[0]', 'VALUE').replace(f'{prm}.value()', 'VALUE'), rets[0][1])
+            res, last = 'VALUE', None
+            for h in chain:
+                prm = h.params[0] if h.params else 'future_'
+                cb = symexec.SymCB(lambda c: None, None, None, None, Facts({}, None, {'average': avg, 'symmetric': sym}))
+                _fin, exits = symexec.run(h, cb, {})
+                rets = [(s_, r) for s_, r in exits if isinstance(r, ast.Return) and r.value is not None]
+                if len(rets) != 1:
+                    raise AnalysisIncomplete(f'{h.short}: {len(rets)} return paths for average={avg}, symmetric={sym}')
+                got = cb.value(rets[0][0], rets[0][1].value).canon()
+                got = got.replace(f'{prm}.value()[0]', 'VALUE[0]' if res != 'VALUE' else 'VALUE').replace(f'{prm}.value()', 'VALUE')
+                if res != 'VALUE' and 'VALUE[0]' in got:
+                    raise AnalysisIncomplete(f'{h.short}: a chained callback unpacks its input again')
+                res = got.replace('VALUE', res)
+                last = rets[0][1]
+            out[(avg, sym)] = (res, last)
     return out
 
 
@@ -429,33 +440,22 @@ def rule_aff_avg(ctx: Ctx) -> None:
     from kfv.terms import Poly
     for m in ('allreduce', 'allreduce_bucketed'):
         f = p.get_func(f'distributed.TorchDistributedCommunicator.{m}')
-        inner = [h for h in p.funcs.values() if h.parent is f and h.kind == 'nested']
-        if len(inner) != 1:
-            raise AnalysisIncomplete(f'{f.short}: expected one nested callback')
-        h = inner[0]
-        prm = h.params[0] if h.params else 'future_'
-        for avg in (True, False):
-            for sym in (True, False):
-                cb = symexec.SymCB(lambda c: None, None, None, None, Facts({}, None, {'average': avg, 'symmetric': sym}))
-                _fin, exits = symexec.run(h, cb, {})
-                rets = [(s_, r) for s_, r in exits if isinstance(r, ast.Return) and r.value is not None]
-                if len(rets) != 1:
-                    raise AnalysisIncomplete(f'{h.short}: {len(rets)} return paths for average={avg}, symmetric={sym}')
-                got = cb.value(rets[0][0], rets[0][1].value).canon()
-                want = set()
-                for vt in (f'{prm}.value()[0]', f'{prm}.value()'):
-                    V = Poly.atom(vt)
-                    W = Poly.atom('get_world_size(group)').inverse()
-                    scaled = (W * V) if avg else V
-                    if sym:
-                        want.add(Poly.atom(f'fill_triu(shape,{scaled.canon()})').canon())
-                        if avg:
-                            want.add((W * Poly.atom(f'fill_triu(shape,{V.canon()})')).canon())
-                    else:
-                        want.add(scaled.canon())
-                ctx.check(got in want, 'AFF-AVG', h, f'{m}: average={avg}, symmetric={sym} -> {got}', f'{m} average={avg} symmetric={sym}',
-                          f'{m}: for average={avg}, symmetric={sym} the future resolves to {got}; specified {sorted(want)[0]} '
-                          '(divide by the size of the group communicated on exactly when average, refill exactly when symmetric)', rets[0][1])
+        worlds = callback_worlds(p, f)
+        for (avg, sym), (got, retnode) in sorted(worlds.items(), reverse=True):
+            V = Poly.atom('VALUE')
+            W = Poly.atom('get_world_size(group)').inverse()
+            scaled = (W * V) if avg else V
+            want = set()
+            if sym:
+                want.add(Poly.atom(f'fill_triu(shape,{scaled.canon()})').canon())
+                if avg:
+                    want.add((W * Poly.atom(f'fill_triu(shape,{V.canon()})')).canon())
+            else:
+                want.add(scaled.canon())
+            h = p._func_of_node.get(id(retnode)) if hasattr(p, '_func_of_node') else None
+            ctx.check(got in want, 'AFF-AVG', f, f'{m}: average={avg}, symmetric={sym} -> {got}', f'{m} average={avg} symmetric={sym}',
+                      f'{m}: for average={avg}, symmetric={sym} the future resolves to {got}; specified {sorted(want)[0]} '
+                      '(divide by the size of the group communicated on exactly when average, refill exactly when symmetric)', retnode)
 
 
 def rule_enum_strat(ctx: Ctx) -> None:
